@@ -415,7 +415,7 @@ impl<'a, RK: RadioKind, C: Probe> Driver<'a, RK, C> {
             };
             self.col.event("alarm_b");
             self.found.push(Found {
-                sig: if tainted { format!("C14|lora|after-failed-init|{}|b-{}|{}", fam, kind, call.api()) } else { format!("C14|lora|b-{}|{}|{}|driver={}", kind, fam, call.api(), before_name) },
+                sig: if tainted { format!("C14|lora|after-failed-init|{}|b-{}", fam, kind) } else { format!("C14|lora|b-{}|{}|{}|driver={}", kind, fam, call.api(), before_name) },
                 what: "the chip was commanded while asleep without being woken first".into(),
                 detail: mk_detail(json!({"chip_alarm": format!("{:?}", al)})),
             });
@@ -443,12 +443,12 @@ impl<'a, RK: RadioKind, C: Probe> Driver<'a, RK, C> {
                 self.col.event("alarm_c");
                 self.found.push(Found {
                     sig: if tainted {
-                        format!("C14|lora|after-failed-init|{}|c-{}-start|{}|missing={}", fam, format!("{:?}", os.kind).to_lowercase(), call.api(), item::names(missing))
+                        format!("C14|lora|after-failed-init|{}|c-{}-start", fam, format!("{:?}", os.kind).to_lowercase())
                     } else {
-                        format!("C14|lora|c-{}-start|{}|{}|missing={}", format!("{:?}", os.kind).to_lowercase(), fam, call.api(), item::names(missing))
+                        format!("C14|lora|c-{}-start|{}|after-{}{}", format!("{:?}", os.kind).to_lowercase(), fam, sh.chip.last_loss(), if call == Call::Listen { "|listen" } else { "" })
                     },
                     what: "an operation was started although configuration it depends on had not been programmed since the last reset / cold sleep".into(),
-                    detail: mk_detail(json!({"operation": format!("{:?}", os.kind), "missing_items": item::names(missing), "chip_mode_at_start": os.from.name()})),
+                    detail: mk_detail(json!({"operation": format!("{:?}", os.kind), "missing_items": item::names(missing), "chip_mode_at_start": os.from.name(), "last_loss_of_configuration": sh.chip.last_loss()})),
                 });
             }
         }
@@ -878,7 +878,7 @@ impl<'a> Visitor for RunWan<'a> {
                 if missing != 0 {
                     col.event("alarm_c");
                     col.violation(
-                        &format!("C14|adapter|c-{}-start|{}|{}|missing={}", format!("{:?}", os.kind).to_lowercase(), fam, st.api(), item::names(missing)),
+                        &format!("C14|adapter|c-{}-start|{}|after-{}", format!("{:?}", os.kind).to_lowercase(), fam, sh.chip.last_loss()),
                         "an operation was started although configuration it depends on had not been programmed since the last reset / cold sleep (through the LoRaWAN adapter)",
                         mk_detail(json!({"missing_items": item::names(missing)})),
                     );
